@@ -729,12 +729,26 @@ func (n *Node) walHead() string { return filepath.Join(n.Dir, "cs.wal", "wal") }
 func (s *Sim) CrashTorn(i int, cut int) error {
 	n := s.Nodes[i]
 	s.Crash(i)
-	b, err := ioutil.ReadFile(n.walHead())
-	if err != nil {
+	target := n.walHead()
+	b, err := ioutil.ReadFile(target)
+	if err != nil && !os.IsNotExist(err) {
 		return err
 	}
 	if len(b) == 0 {
-		return nil
+		// the head was rotated away after the node's last write: a record can only be torn in the file that was being
+		// written when the process died, so this rotation is taken back (the schedule in which the size check had not
+		// fired yet) before the last record is cut
+		rot, _ := filepath.Glob(n.walHead() + ".[0-9][0-9][0-9]*")
+		sort.Strings(rot)
+		if len(rot) == 0 {
+			return nil
+		}
+		if err := os.Rename(rot[len(rot)-1], n.walHead()); err != nil {
+			return err
+		}
+		if b, err = ioutil.ReadFile(target); err != nil || len(b) == 0 {
+			return err
+		}
 	}
 	end := len(b)
 	if b[end-1] == '\n' {
@@ -751,7 +765,7 @@ func (s *Sim) CrashTorn(i int, cut int) error {
 	if cut < 0 {
 		cut = 0
 	}
-	return ioutil.WriteFile(n.walHead(), b[:start+cut], 0600)
+	return ioutil.WriteFile(target, b[:start+cut], 0600)
 }
 
 // Pending lists the ledger messages whose delivery would still change node i (used by the fair drain scheduler).
